@@ -163,7 +163,6 @@ type rombergCase struct {
 	A     int // left end in units of 1/4
 	LExp  int // interval length 2^LExp
 	C     []int
-	Extra int // degree above 2K+1 (0: the exactness class)
 }
 
 func checkRomberg(c rombergCase) *vk.Failure {
@@ -191,8 +190,8 @@ func checkRomberg(c rombergCase) *vk.Failure {
 	want := polyInt(coef, a, a+L)
 	// Samples carry one rounding each (eps*fmax); the trapezoid sums and the
 	// k Richardson steps (amplification (4^j+1)/(4^j-1), product < 2) add a
-	// few eps*fmax*L per level. Observed maximum ratio 0.05.
-	tol := 64 * float64(k+2) * vk.Eps * fmax * L
+	// few eps*fmax*L per level. Observed maximum ratio 0.03.
+	tol := 16 * float64(k+2) * vk.Eps * fmax * L
 	calib("romberg", math.Abs(got-want)/tol)
 	if !(math.Abs(got-want) <= tol) {
 		return vk.Failf("romberg-not-exact", "2^%d+1 samples, degree %d on [%v,%v]: got %v want %v (err %.3g tol %.3g)", k, deg, a, a+L, got, want, got-want, tol)
